@@ -446,6 +446,6 @@ def search(ctx):
 
 CLAIM = {
     "text": "the three binary deserializers and the BinaryFlavor convenience entry points are run through a runtime-shape serde interpreter on generated binary documents x resolvers x strategies x flavors x shapes x buffer sizes/schedules; each result is compared with an independently computed expected value (hence pairwise equal); Coq: see coverage.theorems",
-    "note": "[spec_tie] The specification of the walk theorems (BinDoc.spec_value / enc_doc / flat_doc / wf_doc / tape_ok_doc) is extracted and run on the generated documents: dedoc.render_bin and dedoc.expected are checked against it and every path's value is compared with spec_value directly (stream spec_tie, keys tie-bin-*). Props/C04_walk.v: the three deserializer walks are executable Coq models run from the bytes (stream walk_model); each is proved equal to the specification walk over abstract documents (hence pairwise equal) for all configurations, shapes that fit and well-formed documents, the reader for every fitting capacity and fault-free schedule. Props/C04.v keeps the scalar-level laws. Findings N (u16 target on a token-id value) and O (rgb as an array element) are outside the fitting class and are replayed.",
+    "note": "Props/C04_resolver.v: BasicTokenResolver::from_text_lines is modelled byte for byte (Resolver.v: read_line splitting, UTF-8 check, split at the first space, repeated 0x trimming, from_str_radix(16) into u16 with overflow, trim_ascii_end, last line wins) with render/load round-trip, last-wins, rejection, totality and line-partition theorems, and the loaded table is the c_resolve of the walk models (C04_resolver_is_walk_resolver); stream resolver-lines is a real correspondence plus a byte-level oracle. [spec_tie] The specification of the walk theorems (BinDoc.spec_value / enc_doc / flat_doc / wf_doc / tape_ok_doc) is extracted and run on the generated documents: dedoc.render_bin and dedoc.expected are checked against it and every path's value is compared with spec_value directly (stream spec_tie, keys tie-bin-*). Props/C04_walk.v: the three deserializer walks are executable Coq models run from the bytes (stream walk_model); each is proved equal to the specification walk over abstract documents (hence pairwise equal) for all configurations, shapes that fit and well-formed documents, the reader for every fitting capacity and fault-free schedule. Props/C04.v keeps the scalar-level laws. Findings N (u16 target on a token-id value) and O (rgb as an array element) are outside the fitting class and are replayed.",
     "technique": "machine-checked proof in Coq over an executable model + specification oracle on the implementation",
 }
